@@ -75,6 +75,11 @@ structure DState where
   depth : Nat := 12000
   /-- the evaluator at depth budget `depth`, built once -/
   ev : Rec := Rec.ofDepth 12000
+  /-- directory the harness writes LOADFILE files to (their names as `load` sees them) -/
+  scratch : String := "/verif/run/files"
+  /-- parked contexts of other live sessions (CTX n) -/
+  parked : List (Nat × Ctx) := []
+  current : Nat := 0
 
 /-- `eval_string` with a prebuilt evaluator -/
 def evalStringWith (r : Rec) (text : String) : M Val := do
@@ -96,6 +101,15 @@ def fmtRes (how : String) (r : Res Val) (c : Ctx) : String :=
   | .err k => "ERR " ++ k.name
   | .panic s => "PANIC " ++ s
   | .fuel => "SKIP fuel"
+
+def fmtSpan (k : String) (sp : Span) : String :=
+  k ++ ":" ++ toString sp.s.line ++ "." ++ toString sp.s.col ++ "-" ++ toString sp.e.line ++ "." ++ toString sp.e.col
+
+partial def sxSpans : Sx → List String
+  | .int sp _ | .float sp _ | .str sp _ => [fmtSpan "o" sp]
+  | .ident sp _ => [fmtSpan "y" sp]
+  | .list sp items tail => fmtSpan "l" sp :: (items.flatMap sxSpans ++ (match tail with | some t => sxSpans t | none => []))
+  | .quote sp x | .backquote sp x | .unquote sp x | .splice sp x => fmtSpan "q" sp :: sxSpans x
 
 def splitCmd (line : String) : String × String :=
   let cs := line.toList
@@ -122,6 +136,14 @@ def handle (st : DState) (line : String) : DState × String :=
     let (r, c') := evalStringWith st.ev text st.ctx
     let how := if cmd = "PRINT" then "print" else if cmd = "PRINC" then "princ" else "canon"
     ({ st with ctx := c' }, fmtRes how r c')
+  else if cmd = "CTX" then
+    let n := rest.trimAscii.toString.toNat?.getD 0
+    if n = st.current then (st, "OK")
+    else
+      let parked := (st.current, st.ctx) :: st.parked.filter (·.1 != st.current)
+      let ctx := match parked.find? (·.1 == n) with | some (_, c) => c | none => Ctx.initial
+      ({ st with ctx := ctx, parked := parked.filter (·.1 != n), current := n }, "OK")
+  else if cmd = "EVALBIG" then (st, "SKIP big")      -- implementation-only request (C18 long lists)
   else if cmd = "READ" then
     let text := unescapeLine rest
     let (r, c') := loadText st.ev 0 text st.ctx
@@ -134,12 +156,19 @@ def handle (st : DState) (line : String) : DState × String :=
   else if cmd = "LOADFILE" || cmd = "ERRFMTFILE" || cmd = "WRITEFILE" then
     let (name, text) := splitCmd rest
     let text := unescapeLine text
-    let path := "@" ++ name
+    let path := st.scratch ++ "/" ++ name
     let c := { st.ctx with files := (path, text) :: st.ctx.files.filter (·.1 != path) }
     if cmd = "WRITEFILE" then ({ st with ctx := c }, "OK")
     else
       let (r, c') := loadFile st.ev path c
       ({ st with ctx := c' }, fmtRes "canon" r c')
+  else if cmd = "SPANS" then
+    -- the extents of all forms the reader produces for a text: l = list, y = symbol, o = other
+    let text := unescapeLine rest
+    let rr := readText 0 text.toList
+    match rr.res with
+    | .ok forms => (st, "SPANS " ++ " ".intercalate (forms.flatMap sxSpans))
+    | _ => (st, "SPANS !")
   else if cmd = "FAILAT" then
     let k := rest.trimAscii.toString.toNat?.getD 0
     ({ st with ctx := { st.ctx with tickCount := 0, failAt := k } }, "OK")
@@ -169,4 +198,5 @@ partial def loop (h : IO.FS.Stream) (out : IO.FS.Stream) (st : DState) : IO Unit
 def main : IO Unit := do
   let stdin ← IO.getStdin
   let stdout ← IO.getStdout
-  loop stdin stdout {}
+  let scratch := (← IO.getEnv "HARNESS_SCRATCH").getD "/verif/run/files"
+  loop stdin stdout { scratch := scratch }
